@@ -116,6 +116,49 @@ class Ctx:
             ok = self.MSIG(msg.term, sig.term, avk.term, pp.term)
             st.trace = st.trace + (("verify_multi_signature", (msg.term, sig.term, avk.term, pp.term), ok),)
             return MM.ret(st, EnumV("Result", z3.If(ok, 0, 1), {0: (MI.UNIT,), 1: (Opaque("CertificateVerifierError"),)}))
+        # byte-wise walks over abstract strings: a string has a length and bytes that are functions of its identity; the walk is
+        # unrolled over the common length (<= 2, longer = exhausted), so prefix-only or length-blind comparisons become visible
+        if re.search(r"(core::str::<impl str>|str|String)::bytes$", f):
+            s_ = MM.deref_all(I, st, args[0])
+            if isinstance(s_, Abs):
+                return MM.ret(st, Agg("iter", "absbytes", (s_.term,)))
+        if re.match(r"^<(std::str::|core::str::)?Bytes<'_> as Iterator>::zip::<", f) and isinstance(args[0], Agg) and args[0].name == "absbytes":
+            other = args[1]
+            if isinstance(other, Agg) and other.name == "absbytes":
+                return MM.ret(st, Agg("iter", "abszip", (args[0].fields[0], other.fields[0])))
+        m0 = re.match(r"^<Zip<.*Bytes<'_>, .*Bytes<'_>> as Iterator>::fold::<", f)
+        if m0 and isinstance(args[0], Agg) and args[0].name == "abszip":
+            t1, t2 = args[0].fields
+            LEN = z3.Function("string_length", z3.IntSort(), z3.IntSort())
+            CH = z3.Function("string_byte", z3.IntSort(), z3.IntSort(), z3.IntSort())
+            common = z3.If(LEN(t1) <= LEN(t2), LEN(t1), LEN(t2))
+            clos_ty = [g for g in MM.generic_args(f) if "closure@" in g][0]
+            outs = []
+            for n in range(0, 3):
+                cond = z3.And(LEN(t1) >= 0, LEN(t2) >= 0, common == n)
+                if not I.feasible(st, cond):
+                    continue
+                s2 = st.fork()
+                s2.assume(cond)
+                states = [(s2, args[1])]
+                for i in range(n):
+                    nxt = []
+                    for s3, acc in states:
+                        b1, b2 = CH(t1, z3.IntVal(i)), CH(t2, z3.IntVal(i))
+                        s3.assume(z3.And(b1 >= 0, b1 <= 255, b2 >= 0, b2 <= 255))
+                        for o in MM.call_closure(I, s3, caller, clos_ty, args[2], [acc, Agg("tuple", None, (b1, b2))]):
+                            if o.kind == "return":
+                                nxt.append((o.state, o.value))
+                            else:
+                                outs.append(o)
+                    states = nxt
+                for s3, acc in states:
+                    outs.append(Outcome("return", acc, s3))
+            s4 = st.fork()
+            s4.assume(common > 2)
+            if I.feasible(st, common > 2):
+                outs.append(Outcome("exhausted", None, s4, "byte-wise walk over strings longer than 2"))
+            return outs
         if re.search(r"String::as_bytes$|String::as_str$|<String as Deref>::deref$|String::as_ref$", f):
             return MM.ret(st, args[0] if isinstance(args[0], Ref) else args[0])
         if re.match(r"^<.* as (Clone|ToOwned)>::(clone|to_owned)$", f):
@@ -394,10 +437,12 @@ def decide(rep, ctx, prog, tmo, tier):
                 from checks.c17 import native_query
                 native["kernel"] = {"query": "epoch_gap %d %d" % (ce, pe), "has_gap_with": [l for l in native_query(["epoch_gap %d %d" % (ce, pe)]) if l in ("true", "false")][0]}
                 # battery of real bad links (real signatures, real hashes) through the real verifier: any acceptance reproduces
-                lines = [l for l in native_query(["chain_link %d" % i for i in range(0, 6)]) if l.startswith(("accepted", "rejected", "pending"))]
+                lines = [l for l in native_query(["chain_link %d" % i for i in range(0, 9)]) if l.startswith(("accepted", "rejected", "pending"))]
                 native["battery"] = {"0 honest link": lines[0], "1 re-targeted to following epoch": lines[1], "2 same epoch, foreign signer set": lines[2],
                                      "3 previous epoch, foreign signer set": lines[3], "4 previous is genesis, foreign signer set": lines[4],
-                                     "5 same epoch, foreign signer set and parameters": lines[5]}
+                                     "5 same epoch, foreign signer set and parameters": lines[5],
+                                     "6 epoch boundary, previous without next-protocol-parameters part, other parameters": lines[6],
+                                     "7 epoch boundary, previous without next-aggregate-key part": lines[7], "8 truncated previous_hash": lines[8]}
                 reproduced = lines[0].startswith("accepted") and any(l.startswith("accepted") for l in lines[1:])
             except Exception as e:
                 native["error"] = str(e)
@@ -409,8 +454,16 @@ def decide(rep, ctx, prog, tmo, tier):
                 role = "c03-link-accepts-unchained-key-or-parameters"
                 ob.role = role
         else:
-            what = "clause %s fails: %s" % (name, str(md)[:300])
             reproduced = model is None
+            if model is not None:
+                try:
+                    from checks.c17 import native_query
+                    lines = [l for l in native_query(["chain_link %d" % i for i in range(0, 9)]) if l.startswith(("accepted", "rejected", "pending"))]
+                    native["battery"] = {str(i): l[:90] for i, l in enumerate(lines)}
+                    reproduced = lines[0].startswith("accepted") and any(l.startswith("accepted") for l in lines[1:])
+                except Exception as e:
+                    native["error"] = str(e)
+            what = "clause %s fails: %s; native %s" % (name, str(md)[:300], native)
         path = core.write_replay("C03", k, {"property": "C03", "role": role, "obligation": ob.name, "model": {a: b for a, b in md.items() if len(str(b)) < 80},
                                             "native_replay": native})
         rep.violation(role, what, path, reproduced)
